@@ -69,6 +69,18 @@ pub(crate) struct P {
     pub depth: usize,
     pub funcs: Vec<FnCtx>,
     pub opts: ParseOptions,
+    /// address of a local of the entry function; used to estimate stack consumption
+    pub stack_base: usize,
+    /// stack bytes the recursion may use before giving up (`usize::MAX`: unlimited)
+    pub stack_budget: usize,
+    /// set when the parse was abandoned because `stack_budget` was exceeded
+    pub budget_exceeded: bool,
+}
+
+#[inline(never)]
+fn stack_address() -> usize {
+    let marker = 0u8;
+    std::hint::black_box(&marker as *const u8 as usize)
 }
 
 const COMPOUND_OPS: [&[u8]; 8] = [b"+=", b"-=", b"*=", b"/=", b"//=", b"%=", b"^=", b"..="];
@@ -208,6 +220,10 @@ impl P {
         self.depth += 1;
         if self.depth > MAX_DEPTH {
             return self.err(&format!("chunk has too many syntax levels (limit {})", MAX_DEPTH));
+        }
+        if self.stack_budget != usize::MAX && self.stack_base.abs_diff(stack_address()) > self.stack_budget {
+            self.budget_exceeded = true;
+            return self.err("parser stack budget exceeded");
         }
         Ok(())
     }
@@ -1096,8 +1112,53 @@ pub fn parse(src: &[u8], dialect: Dialect) -> Result<Program, ParseError> {
     parse_with_options(src, dialect, ParseOptions::default())
 }
 
+/// Stack size of the dedicated parser thread used for deeply nested input. Recursion is
+/// bounded by [`MAX_DEPTH`]; the worst measured use (unoptimised build, 200 levels) is a few
+/// megabytes. The memory is only reserved, not committed.
+const PARSER_STACK_BYTES: usize = 64 * 1024 * 1024;
+
+/// Stack the parser may use on the *calling* thread before it restarts on the dedicated
+/// thread. Ordinary programs need a few kilobytes.
+const INLINE_STACK_BUDGET: usize = 192 * 1024;
+
+/// Parse `src`.
+///
+/// The result never depends on the caller's stack or the optimisation level of the build:
+/// the parse first runs on the calling thread with a small stack budget; input nested deeply
+/// enough to exceed it is re-parsed from scratch on a dedicated thread with a large stack,
+/// where only the [`MAX_DEPTH`] rule applies. A panic on that thread (a bug) is reported as
+/// a `ParseError`.
 pub fn parse_with_options(src: &[u8], dialect: Dialect, opts: ParseOptions) -> Result<Program, ParseError> {
     let (toks, _comments) = lex(src, dialect)?;
+    let (result, exceeded) = run(toks, dialect, opts, INLINE_STACK_BUDGET);
+    if !exceeded {
+        return result;
+    }
+    let internal = |what: &str| ParseError { offset: 0, line: 1, message: format!("internal error: {}", what) };
+    std::thread::scope(|scope| {
+        let handle = std::thread::Builder::new()
+            .name("luaparse".to_string())
+            .stack_size(PARSER_STACK_BYTES)
+            .spawn_scoped(scope, move || parse_on_current_thread(src, dialect, opts));
+        match handle {
+            Ok(h) => match h.join() {
+                Ok(r) => r,
+                Err(_) => Err(internal("the parser panicked")),
+            },
+            Err(_) => Err(internal("could not start the parser thread")),
+        }
+    })
+}
+
+/// Same as [`parse_with_options`] but always runs on the calling thread without a stack
+/// budget: the caller must provide enough stack for [`MAX_DEPTH`] nested constructs (about
+/// 1 MiB in optimised builds, several MiB in unoptimised ones).
+pub fn parse_on_current_thread(src: &[u8], dialect: Dialect, opts: ParseOptions) -> Result<Program, ParseError> {
+    let (toks, _comments) = lex(src, dialect)?;
+    run(toks, dialect, opts, usize::MAX).0
+}
+
+fn run(toks: Vec<Token>, dialect: Dialect, opts: ParseOptions, stack_budget: usize) -> (Result<Program, ParseError>, bool) {
     let mut p = P {
         toks,
         i: 0,
@@ -1106,10 +1167,19 @@ pub fn parse_with_options(src: &[u8], dialect: Dialect, opts: ParseOptions) -> R
         depth: 0,
         funcs: vec![FnCtx { vararg: true, loop_depth: 0 }],
         opts,
+        stack_base: stack_address(),
+        stack_budget,
+        budget_exceeded: false,
     };
-    let root = p.block()?;
-    if p.cur().kind != TokKind::Eof {
-        return p.err("'<eof>' expected");
-    }
-    Ok(Program { root, nodes: p.nodes })
+    let result = match p.block() {
+        Ok(root) => {
+            if p.cur().kind != TokKind::Eof {
+                p.err("'<eof>' expected")
+            } else {
+                Ok(Program { root, nodes: std::mem::take(&mut p.nodes) })
+            }
+        }
+        Err(e) => Err(e),
+    };
+    (result, p.budget_exceeded)
 }
